@@ -13,8 +13,11 @@ namespace C11
 open Codegen
 
 /-- The definition a descriptor stands for, in the spec's vocabulary. -/
-def toDef (s : Service) : Spec.Codegen.ServiceDef :=
-  ⟨s.package, s.ident, s.methods.map (fun m => ⟨m.ident, m.clientStreaming, m.serverStreaming, m.input, m.output⟩)⟩
+def toMethodDef (o : Opts) (m : Method) : Spec.Codegen.MethodDef :=
+  ⟨m.ident, m.clientStreaming, m.serverStreaming, (m.types o).1, (m.types o).2⟩
+
+def toDef (s : Service) (o : Opts) : Spec.Codegen.ServiceDef :=
+  ⟨s.package, s.ident, s.methods.map (toMethodDef o)⟩
 
 def callNum : Call → Nat
   | .unary => 0 | .serverStreaming => 1 | .clientStreaming => 2 | .streaming => 3
@@ -27,7 +30,8 @@ def obsC (c : ClientCall) : Spec.Codegen.ClientObs :=
   ⟨c.path, c.gmService, c.gmMethod, callNum c.call, c.reqStream, c.respStream, c.req, c.resp⟩
 
 def obsS (a : ServerArm) : Spec.Codegen.ServerObs :=
-  ⟨a.literal, callNum a.call, traitNum a.svcTrait, a.reqStream, a.respStream, a.req, a.resp⟩
+  ⟨a.literal, callNum a.call, traitNum a.svcTrait, a.reqStream, a.respStream, a.req, a.resp,
+    a.traitReq, a.traitResp⟩
 
 /-- The generated server as C10's router sees it. -/
 def serverOf (s : Service) (o : Opts) : Router.Svc :=
@@ -38,9 +42,13 @@ private theorem path_spec (s : Service) (o : Opts) (m : Method) :
       Spec.Codegen.methodPath (Spec.Codegen.fullName (pkgShown s o) s.ident) m.ident := by
   simp [formatMethodPath, Spec.Codegen.methodPath, serviceName_spec, slash]
 
-/-- **Client and server agree, method by method**: same path, same `Grpc` entry point, same
-streaming shape of request and response, same message types — for every service descriptor
-(any package / names / number of methods / combination of streaming flags) and every option. -/
+/-- *Transcription lemma (definitional).*  The model's `clientMethod` and `serverMethod` both
+call `formatMethodPath` and `Method.types` and repeat the same four-way `match`, as the two
+generators do, so this unfolds the model (`cases <;> rfl`); that the *emitted tokens* agree is
+what the syn-extraction correspondence run establishes.  Statement: **client and server agree,
+method by method**: same path, same `Grpc` entry point, same streaming shape of request and
+response, same message types — for every service descriptor (any package / names / number of
+methods / combination of streaming flags) and every option. -/
 theorem C11_agree (s : Service) (o : Opts) :
     (clientCalls s o).map (fun c => (c.path, c.call, c.reqStream, c.respStream, c.req, c.resp)) =
     (serverArms s o).map (fun a => (a.literal, a.call, a.reqStream, a.respStream, a.req, a.resp)) := by
@@ -50,23 +58,77 @@ theorem C11_agree (s : Service) (o : Opts) :
   simp only [Function.comp, clientMethod, serverMethod]
   cases m.clientStreaming <;> cases m.serverStreaming <;> rfl
 
-/-- **Each side is what the definition says**: the path is `/package.Service/Method` (package
+/-- *Transcription lemma (definitional)* — also the statement itself.  **One type name per
+message, on every side, under every option set**: for every method, whatever its type names come
+from (prost-build's resolution, a manual definition, a user's own `request_response_name`) and
+for every `compile_well_known_types` / `proto_path` / `emit_package`, the generated client
+method, the server's `*Service` impl (whose type parameter fixes the codec's types) and the
+server trait method all name the same request type and the same response type, because all
+three ask `request_response_name` with the same two arguments. -/
+theorem C11_types_agree (s : Service) (o : Opts) (m : Method) :
+    (clientMethod s o m).req = (serverMethod s o m).req ∧
+    (clientMethod s o m).resp = (serverMethod s o m).resp ∧
+    (serverMethod s o m).traitReq = (serverMethod s o m).req ∧
+    (serverMethod s o m).traitResp = (serverMethod s o m).resp := by
+  simp only [clientMethod, serverMethod]
+  cases m.clientStreaming <;> cases m.serverStreaming <;> exact ⟨rfl, rfl, rfl, rfl⟩
+
+/-- What is assumed of prost-build's answer for a message type (checked by the driver on every
+case): a message compiled into the generated tree (`here`) gets a *relative* path that is not
+one of tonic-build's pass-through shapes; a message that lives elsewhere gets one of them — a
+well-known type left to prost-types (proto name below `.google.protobuf`, not compiled), an
+absolute path (`::…`), a `crate::…` path, or `()`. -/
+def ProstLaw (protoType rustType : Bytes) (compileWkt here : Bool) : Prop :=
+  ((isGoogleType protoType && !compileWkt) || colons.isPrefixOf rustType ||
+    nonPathTypeAllowlist.contains rustType || cratePrefix.isPrefixOf rustType) = !here
+
+/-- **The shared type-path resolution does what the definition demands**: under the stated law
+on prost-build's output, tonic-build's `convert_type` names a message compiled into the
+generated tree as `<proto_path>::<prost's path>` and any other message exactly as prost names
+it — for every `proto_path`, both settings of `compile_well_known_types`, and any extern
+mapping (they enter only through prost's answer). -/
+theorem C11_type_resolution (protoPath protoType rustType : Bytes) (compileWkt here : Bool)
+    (law : ProstLaw protoType rustType compileWkt here) :
+    (TypeName.prost protoType rustType).resolve protoPath compileWkt =
+      Spec.Codegen.typePath protoPath here rustType := by
+  unfold ProstLaw at law
+  unfold TypeName.resolve Spec.Codegen.typePath
+  dsimp only
+  cases here with
+  | true =>
+    simp only [Bool.not_true, Bool.or_eq_false_iff] at law
+    obtain ⟨⟨⟨h1, h2⟩, h3⟩, h4⟩ := law
+    rw [h1, h2, h3, h4]
+    simp [colons]
+  | false =>
+    simp only [Bool.not_false] at law
+    cases h : ((isGoogleType protoType && !compileWkt) || colons.isPrefixOf rustType ||
+        nonPathTypeAllowlist.contains rustType) with
+    | true => simp
+    | false =>
+      rw [h, Bool.false_or] at law
+      rw [law]; simp
+
+example : ProstLaw (googlePrefix ++ [46, 69]) unitType false false := by unfold ProstLaw; decide
+example : ProstLaw [46, 97, 46, 82] [82] false true := by unfold ProstLaw; decide
+
+/-- *Transcription lemma (definitional)*: a case split over the two streaming flags, each case
+closed by unfolding the model.  **Each side is what the definition says**: the path is `/package.Service/Method` (package
 omitted when empty or when `emit_package(false)` was requested), the RPC kind is the one given
 by the two streaming flags, the message types are the definition's, the `GrpcMethod` extension
 names the same service and method. -/
 theorem C11_client_conforms (s : Service) (o : Opts) (m : Method) :
-    Spec.Codegen.clientOk (Spec.Codegen.fullName (pkgShown s o) s.ident)
-      ⟨m.ident, m.clientStreaming, m.serverStreaming, m.input, m.output⟩
+    Spec.Codegen.clientOk (Spec.Codegen.fullName (pkgShown s o) s.ident) (toMethodDef o m)
       (obsC (clientMethod s o m)) = true := by
-  simp only [Spec.Codegen.clientOk, obsC, clientMethod]
+  simp only [Spec.Codegen.clientOk, obsC, clientMethod, toMethodDef]
   cases m.clientStreaming <;> cases m.serverStreaming <;>
     simp [path_spec, serviceName_spec, callNum, Spec.Codegen.kind]
 
+/-- *Transcription lemma (definitional)*, server side of `C11_client_conforms`. -/
 theorem C11_server_conforms (s : Service) (o : Opts) (m : Method) :
-    Spec.Codegen.serverOk (Spec.Codegen.fullName (pkgShown s o) s.ident)
-      ⟨m.ident, m.clientStreaming, m.serverStreaming, m.input, m.output⟩
+    Spec.Codegen.serverOk (Spec.Codegen.fullName (pkgShown s o) s.ident) (toMethodDef o m)
       (obsS (serverMethod s o m)) = true := by
-  simp only [Spec.Codegen.serverOk, obsS, serverMethod]
+  simp only [Spec.Codegen.serverOk, obsS, serverMethod, toMethodDef]
   cases m.clientStreaming <;> cases m.serverStreaming <;>
     simp [path_spec, callNum, traitNum, Spec.Codegen.kind]
 
@@ -78,21 +140,22 @@ private theorem all₂_map {α β γ} (p : β → γ → Bool) (f : α → β) (
     simp only [List.map_cons, Spec.Codegen.all₂, Bool.and_eq_true]
     exact ⟨h a List.mem_cons_self, ih (fun x hx => h x (List.mem_cons_of_mem _ hx))⟩
 
-/-- **The generator output satisfies the executable spec predicate** (the one the driver
+/-- *Transcription lemma (definitional)*: the three lemmas above, lifted over the method list.
+**The generator output satisfies the executable spec predicate** (the one the driver
 evaluates on the tokens extracted from the real generators), for every descriptor and option:
 advertised service name = path prefix, both sides conform to the definition, and they agree. -/
 theorem C11_conforms (s : Service) (o : Opts) :
-    Spec.Codegen.conforms (pkgShown s o) (toDef s) (some (serviceNameConst s o))
+    Spec.Codegen.conforms (pkgShown s o) (toDef s o) (some (serviceNameConst s o))
       (some ((clientCalls s o).map obsC)) (some ((serverArms s o).map obsS)) = true := by
   simp only [Spec.Codegen.conforms, toDef, serviceNameConst, serviceName_spec, beq_self_eq_true,
     Bool.true_and, Bool.and_eq_true, clientCalls, serverArms, List.map_map]
   refine ⟨⟨?_, ?_⟩, ?_⟩
   · have := all₂_map (Spec.Codegen.clientOk (Spec.Codegen.fullName (pkgShown s o) s.ident))
-      (fun m : Method => (⟨m.ident, m.clientStreaming, m.serverStreaming, m.input, m.output⟩ : Spec.Codegen.MethodDef))
+      (toMethodDef o)
       (obsC ∘ clientMethod s o) s.methods (fun m _ => C11_client_conforms s o m)
     simpa [List.map_map] using this
   · have := all₂_map (Spec.Codegen.serverOk (Spec.Codegen.fullName (pkgShown s o) s.ident))
-      (fun m : Method => (⟨m.ident, m.clientStreaming, m.serverStreaming, m.input, m.output⟩ : Spec.Codegen.MethodDef))
+      (toMethodDef o)
       (obsS ∘ serverMethod s o) s.methods (fun m _ => C11_server_conforms s o m)
     simpa [List.map_map] using this
   · unfold Spec.Codegen.sidesAgree
@@ -101,7 +164,9 @@ theorem C11_conforms (s : Service) (o : Opts) :
     simp only [Function.comp, obsC, obsS, clientMethod, serverMethod]
     cases m.clientStreaming <;> cases m.serverStreaming <;> simp
 
-/-- **The advertised service name is the path prefix**: every arm literal (and so every client
+/-- *Transcription lemma (definitional)*: `formatMethodPath` is written as
+`"/" ++ formatServiceName ++ "/" ++ ident`, as `lib.rs::format_method_path` is.
+**The advertised service name is the path prefix**: every arm literal (and so every client
 path) is `"/" ++ SERVICE_NAME ++ "/" ++ method`, i.e. exactly the route C10's router keys on. -/
 theorem C11_service_name_is_prefix (s : Service) (o : Opts) (m : Method) :
     (serverMethod s o m).literal = Router.routePrefix (serviceNameConst s o) ++ m.ident ∧
@@ -266,36 +331,36 @@ the proto identifiers; hypotheses of the end-to-end theorems are satisfiable. -/
 private def bs (s : String) : Bytes := s.toList.map (fun c => c.toNat.toUInt8)
 private def svc0 : Service :=
   ⟨bs "Greeter", bs "a.b", bs "Greeter",
-   [⟨bs "say_hello", bs "SayHello", false, false, bs "Req", bs "Resp"⟩,
-    ⟨bs "watch", bs "Watch", false, true, bs "Req", bs "Resp"⟩,
-    ⟨bs "upload", bs "Upload", true, false, bs "Chunk", bs "Resp"⟩,
-    ⟨bs "r#type", bs "Type", true, true, bs "Req", bs "Resp"⟩]⟩
+   [⟨bs "say_hello", bs "SayHello", false, false, .fixed (bs "Req"), .fixed (bs "Resp")⟩,
+    ⟨bs "watch", bs "Watch", false, true, .fixed (bs "Req"), .fixed (bs "Resp")⟩,
+    ⟨bs "upload", bs "Upload", true, false, .fixed (bs "Chunk"), .fixed (bs "Resp")⟩,
+    ⟨bs "r#type", bs "Type", true, true, .fixed (bs "Req"), .fixed (bs "Resp")⟩]⟩
 
-example : (clientCalls svc0 ⟨true⟩).map (·.path) =
+example : (clientCalls svc0 { emitPackage := true }).map (·.path) =
     [bs "/a.b.Greeter/SayHello", bs "/a.b.Greeter/Watch", bs "/a.b.Greeter/Upload", bs "/a.b.Greeter/Type"] := by decide
-example : (clientCalls svc0 ⟨false⟩).map (·.path) =
+example : (clientCalls svc0 { emitPackage := false }).map (·.path) =
     [bs "/Greeter/SayHello", bs "/Greeter/Watch", bs "/Greeter/Upload", bs "/Greeter/Type"] := by decide
 example : (svc0.methods.map (·.ident)).Nodup := by decide
-example : C10.WellFormed [serverOf svc0 ⟨true⟩, ⟨bs "a.b", [bs "Greeter"]⟩] := by
+example : C10.WellFormed [serverOf svc0 { emitPackage := true }, ⟨bs "a.b", [bs "Greeter"]⟩] := by
   refine ⟨by decide, by decide, by decide⟩
-example : DefOk svc0 ⟨true⟩ := by
+example : DefOk svc0 { emitPackage := true } := by
   refine ⟨by decide, by decide, ?_, by decide⟩
   intro c hc
-  have h : c ∈ pkgShown svc0 ⟨true⟩ ++ svc0.ident := List.mem_append.mpr hc
-  have all : ∀ c ∈ pkgShown svc0 ⟨true⟩ ++ svc0.ident, c ≠ 47 ∧ c ≠ 123 ∧ c ≠ 125 := by decide
+  have h : c ∈ pkgShown svc0 { emitPackage := true } ++ svc0.ident := List.mem_append.mpr hc
+  have all : ∀ c ∈ pkgShown svc0 { emitPackage := true } ++ svc0.ident, c ≠ 47 ∧ c ≠ 123 ∧ c ≠ 125 := by decide
   exact all c h
-example : (serverArms svc0 ⟨true⟩).map (·.call) = [.unary, .serverStreaming, .clientStreaming, .streaming] := by decide
+example : (serverArms svc0 { emitPackage := true }).map (·.call) = [.unary, .serverStreaming, .clientStreaming, .streaming] := by decide
 
 /- the hypotheses of `C11_end_to_end_defs` hold for a set of definitions whose names collide in
 every way the property mentions: same identifier in another package, no package, and a
 Service-Name that is a prefix of another. -/
-private def svc1 : Service := ⟨bs "Greeter", bs "a", bs "Greeter", [⟨bs "say_hello", bs "SayHello", false, false, bs "Req", bs "Resp"⟩]⟩
-private def svc2 : Service := ⟨bs "Greeter", [], bs "Greeter", [⟨bs "say_hello", bs "SayHello", true, true, bs "Req", bs "Resp"⟩]⟩
-private def svc3 : Service := ⟨bs "Gre", bs "a.b", bs "Gre", [⟨bs "eter", bs "eter", false, true, bs "Req", bs "Resp"⟩]⟩
-example : ([svc0, svc1, svc2, svc3].map (fun s => (pkgShown s ⟨true⟩, s.ident))).Nodup := by decide
-example : C10.WellFormed ([svc0, svc1, svc2, svc3].map (fun s => serverOf s ⟨true⟩)) := by
+private def svc1 : Service := ⟨bs "Greeter", bs "a", bs "Greeter", [⟨bs "say_hello", bs "SayHello", false, false, .fixed (bs "Req"), .fixed (bs "Resp")⟩]⟩
+private def svc2 : Service := ⟨bs "Greeter", [], bs "Greeter", [⟨bs "say_hello", bs "SayHello", true, true, .fixed (bs "Req"), .fixed (bs "Resp")⟩]⟩
+private def svc3 : Service := ⟨bs "Gre", bs "a.b", bs "Gre", [⟨bs "eter", bs "eter", false, true, .fixed (bs "Req"), .fixed (bs "Resp")⟩]⟩
+example : ([svc0, svc1, svc2, svc3].map (fun s => (pkgShown s { emitPackage := true }, s.ident))).Nodup := by decide
+example : C10.WellFormed ([svc0, svc1, svc2, svc3].map (fun s => serverOf s { emitPackage := true })) := by
   refine ⟨by decide, by decide, by decide⟩
-example : Router.dispatch ([svc0, svc1, svc2, svc3].map (fun s => serverOf s ⟨true⟩)) (bs "/Greeter/SayHello")
+example : Router.dispatch ([svc0, svc1, svc2, svc3].map (fun s => serverOf s { emitPackage := true })) (bs "/Greeter/SayHello")
     = .handler (bs "Greeter") (bs "SayHello") := by decide
 
 end C11
